@@ -652,7 +652,7 @@ class Subscription(BaseSubscription):
                 where.add(subwhere)
             else:
                 where.add("false")
-            if filter_obj.limit:
+            if filter_obj.limit is not None:
                 limit = min(filter_obj.limit, self.default_limit)
             new_filters.append(filter_obj)
         if where:
